@@ -67,7 +67,7 @@ def origin_regions(ctx, rnd):
     for G, steps in ([(4, [1, 4])] if q else [(3, [1, 2]), (4, [1, 4]), (5, [1, 8]), (6, [1])]):
         oi, oj = org["ij"][str(G)]
         cfg = w2.grid_cfg(rnd, G, "loop", "c04grid", ["ohole", "oisland", "onear"], [org["face"]], steps, [0], with_cells=False,
-                          prove=G <= 4, invariants=GRID_INV, origin=(oi, oj))
+                          prove=G <= 3, invariants=GRID_INV, origin=(oi, oj))
         r = ctx.tlc("Gen_Grid", cfg, workers=12, timeout=1500)
         cases += r.tagged.get("CASE", [])
     ctx.log("regions around OriginPoint (face %d): %d" % (org["face"], len(cases)))
